@@ -925,7 +925,11 @@ pub fn explore_child(prop: &dyn Property, tier: Tier, seed: u64, from: u64, to: 
 pub fn explore_batch_isolated(prop: &dyn Property, tier: Tier, seed: u64, runs: u64, nworkers: usize) -> BatchResult {
     use std::io::{BufRead, BufReader};
     use std::process::{Command, Stdio};
-    let exe = std::env::current_exe().expect("current_exe");
+    // children may run a differently built binary (unoptimised build for stack-depth realism)
+    let exe = std::env::var_os("VERIF_CHILD_EXE")
+        .map(PathBuf::from)
+        .filter(|p| p.exists())
+        .unwrap_or_else(|| std::env::current_exe().expect("current_exe"));
     let nchild = nworkers.max(1) as u64;
     let per = runs.div_ceil(nchild).max(1);
     let mut out = BatchResult { stats: Stats::default(), fails: vec![], harness_errors: vec![], runs };
